@@ -200,7 +200,8 @@ impl PokSignatureProof {
 
     /// Convert a byte sequence into a Signature Proof of Knowledge
     pub fn from_bytes<B: AsRef<[u8]>>(bytes: B) -> Option<Self> {
-        const SIZE: usize = 32 * 3 + 48 * 4;
+        // two G1 points, one G2 point, then the responses (at least those for t and m_tick)
+        const SIZE: usize = 32 * 2 + 48 * 4;
         let buffer = bytes.as_ref();
         if buffer.len() < SIZE {
             return None;
